@@ -183,7 +183,11 @@ pub fn run_families(property: &str, tier: &str, fams: Vec<Family>, budget_s: f64
         wall_s: 0.0,
     };
     let n_fams = fams.len().max(1);
-    for (fi, fam) in fams.iter().enumerate() {
+    // Small families first: what they do not use of their share goes to the large ones
+    // (real-thread families keep their place at the front: they are cheap and time-sensitive).
+    let mut order: Vec<&Family> = fams.iter().collect();
+    order.sort_by_key(|f| if f.uncontrolled.is_some() { 0 } else { f.scenarios.len() });
+    for (fi, fam) in order.into_iter().enumerate() {
         let tf = Instant::now();
         // Each family gets an equal share of what is left of the budget.
         let remaining = (budget_s - t0.elapsed().as_secs_f64()).max(1.0);
